@@ -42,6 +42,8 @@ def main():
         for c in ["cascette-ribbit", "cascette-protocol", "cascette-client-storage", "cascette-cache", "cascette-formats", "cascette-crypto"]:
             if c in crates and c.replace("-", "_") in demo_text:
                 demo_crate = c; break
+        # a demo may drive a crate downstream of the touched one (override: DEMO_CRATE=<crate>)
+        demo_crate = os.environ.get("DEMO_CRATE", demo_crate)
         tname = f"seeded_{sid.replace('-', '_').lower()}"
         tdir = f"{repo}/crates/{demo_crate}/tests"
         os.makedirs(tdir, exist_ok=True)
